@@ -35,11 +35,15 @@ Fixpoint count_in (tr : list event) : nat :=
   end.
 
 (* the k-th visit_*_in call returned the k-th recorded list *)
-Definition sel_recorded (rets : list (list nat)) (tr : list event) (n : nat) : list nat :=
-  nth (count_in tr - 1) rets [].
+(* a recorded return: (true, [c]) = the callback returned the single node c itself; (false, ks) = an iterable *)
+Definition sel_recorded (rets : list (bool * list nat)) (tr : list event) (n : nat) : vret :=
+  match nth (count_in tr - 1) rets (false, []) with
+  | (true, c :: _) => ROne c
+  | (_, ks) => RNodes ks
+  end.
 
 (* graph, single_visit, recorded returns, observed callback trace *)
-Definition vcase : Type := (vgraph * bool * list (list nat) * list event)%type.
+Definition vcase : Type := (vgraph * bool * list (bool * list nat) * list event)%type.
 
 Definition visit_diag (c : vcase) : nat :=
   let '(g, single, rets, obs) := c in
@@ -60,7 +64,7 @@ Definition visit_ok (c : vcase) : bool := Nat.eqb (visit_diag c) 0.
    (kind, node, path) with kind 0 = in, 1 = out, 2 = token, 3 = on_cycle *)
 From Coq Require Import NArith.
 Definition rawcase : Type :=
-  (list (option N) * bool * list (list N) * list (N * N * list N))%type.
+  (list (option N) * bool * list (bool * list N) * list (N * N * list N))%type.
 
 Definition event_of_raw (e : N * N * list N) : event :=
   let '(k, n, p) := e in
@@ -72,6 +76,6 @@ Definition event_of_raw (e : N * N * list N) : event :=
 Definition vcase_of_raw (c : rawcase) : vcase :=
   let '(g, single, rets, obs) := c in
   (map (fun o => match o with Some t => VTok (N.to_nat t) | None => VInner end) g, single,
-   map (map N.to_nat) rets, map event_of_raw obs).
+   map (fun r => (fst r, map N.to_nat (snd r))) rets, map event_of_raw obs).
 
 Definition visit_ok_raw (c : rawcase) : bool := visit_ok (vcase_of_raw c).
